@@ -24,45 +24,45 @@ func comps(path string) [][]string {
 }
 
 type predPkg struct {
-	Path  string   `json:"path"`
-	Name  string   `json:"name"`
+	Path  string     `json:"path"`
+	Name  string     `json:"name"`
 	Alias string     `json:"alias"`
 	Comps [][]string `json:"comps"`
 }
 
 type predVar struct {
-	NameCs []string  `json:"nameCs"`
-	T      T         `json:"t"`
-	Suffix string    `json:"suffix"`
+	NameCs []string `json:"nameCs"`
+	T      T        `json:"t"`
+	Suffix string   `json:"suffix"`
 }
 
 type predCase struct {
-	Case    int         `json:"case"`
-	MoqPath string      `json:"moqPath"`
-	Scopes  [][]predVar `json:"scopes"`
-	Tail    []predPkg   `json:"tail"`
-	Src     predPkg     `json:"src"`
-	Pkgs    []predPkg   `json:"pkgs"` // the case's package table; types refer to it by index
-	scopeOf []string    // "<iface>.<method>" per scope ("<iface>.[tparams]")
-	nParams []int       // number of parameters (record fields) per scope, -1 for type-parameter scopes
-	scopePkgs [][]string // import paths the scope's variable types mention
+	Case      int         `json:"case"`
+	MoqPath   string      `json:"moqPath"`
+	Scopes    [][]predVar `json:"scopes"`
+	Tail      []predPkg   `json:"tail"`
+	Src       predPkg     `json:"src"`
+	Pkgs      []predPkg   `json:"pkgs"` // the case's package table; types refer to it by index
+	scopeOf   []string    // "<iface>.<method>" per scope ("<iface>.[tparams]")
+	nParams   []int       // number of parameters (record fields) per scope, -1 for type-parameter scopes
+	scopePkgs [][]string  // import paths the scope's variable types mention
 }
 
 // Prediction is what the Registry and Scope models say about one case.
 type Prediction struct {
-	Case    int          `json:"case"`
-	Diverge bool         `json:"diverge"`
-	Dup     bool         `json:"dup"`
-	Crash   bool         `json:"crash"`
-	NameDup bool         `json:"nameDup"`
-	Late    bool         `json:"late"`
-	NFinals int          `json:"nfinals"`
-	Finals  [][][]string `json:"finals"` // set of registries, each a set of [path, qualifier]
-	Names   [][][]string `json:"names"`  // per scope: set of possible final name lists
-	ScopeOf []string     `json:"-"`
-	NParams []int        `json:"-"`
-	FieldDup bool        `json:"-"`
-	LateCapture bool     `json:"-"` // a variable's final name equals the final qualifier of a package its own method uses
+	Case        int          `json:"case"`
+	Diverge     bool         `json:"diverge"`
+	Dup         bool         `json:"dup"`
+	Crash       bool         `json:"crash"`
+	NameDup     bool         `json:"nameDup"`
+	Late        bool         `json:"late"`
+	NFinals     int          `json:"nfinals"`
+	Finals      [][][]string `json:"finals"` // set of registries, each a set of [path, qualifier]
+	Names       [][][]string `json:"names"`  // per scope: set of possible final name lists
+	ScopeOf     []string     `json:"-"`
+	NParams     []int        `json:"-"`
+	FieldDup    bool         `json:"-"`
+	LateCapture bool         `json:"-"` // a variable's final name equals the final qualifier of a package its own method uses
 }
 
 // walk lists the packages of a type in the order populateImports meets them.
